@@ -55,7 +55,9 @@ def run(ctx):
         if T.world_key(w) not in seen:
             seen.add(T.world_key(w))
             worlds.append(w)
-    results = T.run_worlds(worlds)
+    results = T.run_worlds(worlds, probe=T.probe_spec(ctx, ["c14"]))
+    ctx.rules.append("adversarial probes: among the OPTIMAL assignments of the live model (objective >= optimum), the one with the fewest "
+                     "placements and one avoiding a chosen task are searched; they must be maximal too")
     ctx.rules.append(
         "worlds as in C10_tetri without RUNNING tasks (signature of F11-iii, exercised separately), both back-ends, task-by-task "
         "and whole-graph mode; the maximality monitor is applied where the hypotheses of C14_tetri_maximal hold (max_hypb: no "
